@@ -395,7 +395,7 @@ PROPS["C18"] = {
 # ---------------------------------------------------------------- C12
 PROPS["C12"] = {
     "two_backends": True,
-    "rule": "call histories: one shared plan and schema, the document under test plus 2..8 (thorough: ..49) other documents (valid, invalid, cyclic) validated before and after it, forwards and backwards, every result compared with a fresh-plan run; 16 threads validating the same documents concurrently on the shared &plan / &schema (3 rounds, rotated start); schema, documents and plan compared with clones taken before; the whole case set is also run through a second build of the harness with the other parser back end (graphql_parser_fork) and the canonical outputs must be identical; result of the document under test compared with the extracted model (errors as multisets per run of one code). distinct = distinct (schema, document, plan); non-trivial = at least one error and a history of at least 3 documents. Scheduling is stress-explored, not enumerated",
+    "rule": "call histories: one shared plan and schema, the document under test plus 2..8 (thorough: ..49) other documents (valid, invalid, cyclic) validated before and after it, forwards and backwards, every result compared with a fresh-plan run; other SCHEMAS in the history (variants with the same number of definitions taking turns in one variable, a clone at another address, a fresh thread); 16 threads validating the same documents concurrently on the shared &plan / &schema (3 rounds, rotated start); schema, documents and plan compared with clones taken before; the whole case set is also run through a second build of the harness with the other parser back end (graphql_parser_fork) and the canonical outputs must be identical; result of the document under test compared with the extracted model (errors as multisets per run of one code). distinct = distinct (schema, document, plan); non-trivial = at least one error and a history of at least 3 documents. Scheduling is stress-explored, not enumerated",
     "nontrivial": lambda il, meta: any(l.startswith("E ") for l in il) and meta.get("note", "history=0") not in ("history=0", "history=1", "history=2"),
     "partial": "thread interleavings, process-wide statics, HashMap random state and the choice of parser back end are facts about the compiled code: they are stress / differential runs against the model's single answer, not theorems",
 }
